@@ -379,4 +379,177 @@ example : mul Profile.dev .up ⟨-25, 1⟩ Dec.ONE = .ok ⟨-25, 1⟩ ∧ mul Pr
 example : mul Profile.release .down ⟨-25, 1⟩ ⟨0, 7⟩ = .ok Dec.ZERO ∧ mul Profile.release .down Dec.ZERO ⟨I128_MAX, 18⟩ = .ok Dec.ZERO := by
   decide
 
+/-! ### algebraic laws: `checked_mul` against `*`
+`checked_mul` never rounds: it returns `None` as soon as `p + q > 18` (after the zero / one short cuts), where `*` returns the
+product rounded to 18 digits.  So the two agree — the operator is the checked variant with `None` turned into the overflow panic —
+exactly on the operands for which nothing has to be rounded; in general only `Some(r)` carries over to the operator. -/
+
+/-- the operands on which `*` is exact by construction: a zero, a one, or at most 18 digits in the product -/
+def MulExact (x y : Dec) : Prop :=
+  x.coeff = 0 ∨ y.coeff = 0 ∨ y.coeff = (10 : Int) ^ y.nfrac ∨ x.coeff = (10 : Int) ^ x.nfrac ∨ x.nfrac + y.nfrac ≤ 18
+
+instance (x y : Dec) : Decidable (MulExact x y) := by unfold MulExact; infer_instance
+
+/-- on those operands `x * y` is `x.checked_mul(y)` with `None` replaced by the overflow panic (every mode, every profile) -/
+theorem mul_eq_checked (prof : Profile) (tm : Mode) (x y : Dec) (hp : x.nfrac ≤ 18) (hq : y.nfrac ≤ 18) (h : MulExact x y) :
+    mul prof tm x y = panicOnNone (checkedMul prof x y) := by
+  obtain ⟨a, p⟩ := x
+  obtain ⟨b, q⟩ := y
+  simp only [MulExact] at hp hq h
+  unfold mul checkedMul
+  simp only [eqZero]
+  by_cases h0 : a = 0 ∨ b = 0
+  · have h1 : (decide (a = 0) || decide (b = 0)) = true := by simpa using h0
+    simp [h1, panicOnNone]
+  · have h1 : (decide (a = 0) || decide (b = 0)) = false := by simpa using h0
+    simp only [h1, if_false, Bool.false_eq_true]
+    rw [eqOne_eq ⟨b, q⟩ hq, eqOne_eq ⟨a, p⟩ hp]
+    simp only [Outcome.bind_ok]
+    by_cases hb : b = (10 : Int) ^ q
+    · simp [hb, panicOnNone]
+    · by_cases ha : a = (10 : Int) ^ p
+      · simp [ha, hb, panicOnNone]
+      · have hpq : p + q ≤ 18 := by
+          rcases h with h | h | h | h | h
+          · exact absurd (Or.inl h) h0
+          · exact absurd (Or.inr h) h0
+          · exact absurd h hb
+          · exact absurd h ha
+          · exact h
+        simp only [ha, hb, decide_false, Bool.false_eq_true, if_false]
+        unfold checkedMulRounded
+        simp only [max_nfrac]
+        rw [plainU8_ok prof (x := (p : Int) + (q : Int)) (by omega) (by omega)]
+        have e : ((p : Int) + (q : Int)).toNat = p + q := by omega
+        have h18 : 18 ≥ p + q := hpq
+        have h18' : ¬ p + q > 18 := by omega
+        simp only [Outcome.bind_ok, e, h18, h18', if_true, if_false]
+        cases checkedI128 (a * b) <;> rfl
+
+/-- `checked_mul` never panics on operands of the domain -/
+theorem checked_mul_no_panic (prof : Profile) (x y : Dec) (hx : Dom x) (hy : Dom y) : ∃ o, checkedMul prof x y = .ok o := by
+  refine allowedChecked_no_panic _ _ (checked_mul_spec prof x y hx hy) ?_ ?_ <;>
+    (unfold Spec.checkedMul Spec.valFitSharp; repeat' split) <;> simp
+
+/-- beyond 18 digits in the product (no short cut): `None`, whatever the operands -/
+theorem checked_mul_none_of_digits (prof : Profile) (x y : Dec) (hx : Dom x) (hy : Dom y) (h : ¬ MulExact x y) :
+    checkedMul prof x y = .ok none := by
+  have hs := checked_mul_spec prof x y hx hy
+  simp only [MulExact, not_or] at h
+  obtain ⟨h1, h2, h3, h4, h5⟩ := h
+  have h0 : ¬ (x.coeff = 0 ∨ y.coeff = 0) := fun hh => hh.elim h1 h2
+  have h6 : x.nfrac + y.nfrac > 18 := by omega
+  unfold Spec.checkedMul at hs
+  simp only [h0, isOne_eq, h3, h4, h6, decide_false, Bool.false_eq_true, if_false, if_true] at hs
+  cases hc : checkedMul prof x y with
+  | panic k => rw [hc] at hs; simp [Spec.allowedChecked] at hs
+  | ok o =>
+    cases o with
+    | none => rfl
+    | some r => rw [hc] at hs; simp [Spec.allowedChecked] at hs
+
+/-- `Some(r)` always carries over: the operator then returns `r` (all operands of the domain, every mode) -/
+theorem checked_mul_some_imp (prof : Profile) (tm : Mode) (x y r : Dec) (hx : Dom x) (hy : Dom y)
+    (h : checkedMul prof x y = .ok (some r)) : mul prof tm x y = .ok r := by
+  by_cases he : MulExact x y
+  · rw [mul_eq_checked prof tm x y hx.2.2 hy.2.2 he, h]; rfl
+  · rw [checked_mul_none_of_digits prof x y hx hy he] at h
+    simp at h
+
+/-- where nothing is rounded: `Some(r)` exactly when the operator returns `r` … -/
+theorem checked_mul_some_iff (prof : Profile) (tm : Mode) (x y r : Dec) (hx : Dom x) (hy : Dom y) (he : MulExact x y) :
+    checkedMul prof x y = .ok (some r) ↔ mul prof tm x y = .ok r := by
+  rw [mul_eq_checked prof tm x y hx.2.2 hy.2.2 he, panicOnNone_eq_ok_iff]
+
+/-- … and `None` exactly when the operator panics, the panic being the overflow panic -/
+theorem checked_mul_none_iff (prof : Profile) (tm : Mode) (x y : Dec) (hx : Dom x) (hy : Dom y) (he : MulExact x y) :
+    checkedMul prof x y = .ok none ↔ mul prof tm x y = .panic .overflow := by
+  obtain ⟨o, ho⟩ := checked_mul_no_panic prof x y hx hy
+  rw [mul_eq_checked prof tm x y hx.2.2 hy.2.2 he, panicOnNone_eq_panic_iff, ho]
+  simp
+
+theorem mul_exact_panic_kind (prof : Profile) (tm : Mode) (x y : Dec) (k : PanicKind) (hx : Dom x) (hy : Dom y) (he : MulExact x y)
+    (h : mul prof tm x y = .panic k) : k = .overflow := by
+  obtain ⟨o, ho⟩ := checked_mul_no_panic prof x y hx hy
+  rw [mul_eq_checked prof tm x y hx.2.2 hy.2.2 he, panicOnNone_eq_panic_iff, ho] at h
+  simp at h
+  exact h.2
+
+/-- the integer shapes (`Decimal * int`, `int * Decimal`): no condition at all -/
+theorem mul_int_eq_checked (d : Dec) (i : Int) : mulInt d i = Outcome.ofOption .overflow (checkedMulInt d i) := by
+  unfold mulInt checkedMulInt
+  cases checkedI128 (d.coeff * i) <;> rfl
+
+theorem checked_mul_int_some_iff (d r : Dec) (i : Int) : checkedMulInt d i = some r ↔ mulInt d i = .ok r := by
+  rw [mul_int_eq_checked, ofOption_eq_ok_iff]
+
+theorem checked_mul_int_none_iff (d : Dec) (i : Int) : checkedMulInt d i = none ↔ mulInt d i = .panic .overflow := by
+  rw [mul_int_eq_checked, ofOption_eq_panic_iff]
+  simp
+
+example : checkedMul Profile.dev ⟨-15, 1⟩ ⟨25, 2⟩ = .ok (some ⟨-375, 3⟩) ∧ mul Profile.dev .heven ⟨-15, 1⟩ ⟨25, 2⟩ = .ok ⟨-375, 3⟩ ∧
+    checkedMul Profile.dev Dec.MAX ⟨2, 0⟩ = .ok none ∧ mul Profile.dev .heven Dec.MAX ⟨2, 0⟩ = .panic .overflow ∧
+    checkedMul Profile.release ⟨5, 18⟩ ⟨100, 2⟩ = .ok (some ⟨5, 18⟩) ∧ mul Profile.release .up ⟨5, 18⟩ ⟨100, 2⟩ = .ok ⟨5, 18⟩ := by decide
+-- the counter-example to unrestricted agreement: 19 digits in the product — `None` against the rounded product
+example : ¬ MulExact ⟨15, 10⟩ ⟨3, 9⟩ ∧ checkedMul Profile.dev ⟨15, 10⟩ ⟨3, 9⟩ = .ok none ∧
+    mul Profile.dev .heven ⟨15, 10⟩ ⟨3, 9⟩ = .ok ⟨4, 18⟩ ∧ mul Profile.dev .up ⟨15, 10⟩ ⟨3, 9⟩ = .ok ⟨5, 18⟩ := by decide
+example : checkedMulInt ⟨-15, 1⟩ 3 = some ⟨-45, 1⟩ ∧ mulInt ⟨-15, 1⟩ 3 = .ok ⟨-45, 1⟩ ∧
+    checkedMulInt Dec.MAX 2 = none ∧ mulInt Dec.MAX 2 = .panic .overflow := by decide
+
+/-! ### algebraic laws: `*` is exact up to 18 digits -/
+
+/-- the four ways `x * y` produces a result when `p + q ≤ 18`: a zero, the other operand next to a one, or the exact product of the
+    coefficients with `p + q` digits (nothing is ever rounded there) -/
+theorem mul_exact_cases (prof : Profile) (tm : Mode) (x y r : Dec) (hp : x.nfrac ≤ 18) (hq : y.nfrac ≤ 18)
+    (hpq : x.nfrac + y.nfrac ≤ 18) (h : mul prof tm x y = .ok r) :
+    (r = Dec.ZERO ∧ (x.coeff = 0 ∨ y.coeff = 0)) ∨ (r = x ∧ y.coeff = (10 : Int) ^ y.nfrac) ∨
+    (r = y ∧ x.coeff = (10 : Int) ^ x.nfrac) ∨
+    (r = ⟨x.coeff * y.coeff, x.nfrac + y.nfrac⟩ ∧ fitsI128 (x.coeff * y.coeff) = true) := by
+  obtain ⟨a, p⟩ := x
+  obtain ⟨b, q⟩ := y
+  simp only at hp hq hpq ⊢
+  unfold mul at h
+  simp only [eqZero] at h
+  by_cases h0 : a = 0 ∨ b = 0
+  · have h1 : (decide (a = 0) || decide (b = 0)) = true := by simpa using h0
+    simp [h1] at h
+    exact Or.inl ⟨h.symm, h0⟩
+  · have h1 : (decide (a = 0) || decide (b = 0)) = false := by simpa using h0
+    simp only [h1, if_false, Bool.false_eq_true] at h
+    rw [eqOne_eq ⟨b, q⟩ hq, eqOne_eq ⟨a, p⟩ hp] at h
+    simp only [Outcome.bind_ok] at h
+    by_cases hb : b = (10 : Int) ^ q
+    · simp [hb] at h
+      exact Or.inr (Or.inl ⟨h.symm, hb⟩)
+    · by_cases ha : a = (10 : Int) ^ p
+      · simp [ha, hb] at h
+        exact Or.inr (Or.inr (Or.inl ⟨by rw [← h], ha⟩))
+      · simp only [ha, hb, decide_false, Bool.false_eq_true, if_false] at h
+        unfold checkedMulRounded at h
+        simp only [max_nfrac] at h
+        rw [plainU8_ok prof (x := (p : Int) + (q : Int)) (by omega) (by omega)] at h
+        have e : ((p : Int) + (q : Int)).toNat = p + q := by omega
+        have h18 : 18 ≥ p + q := hpq
+        simp only [Outcome.bind_ok, e, h18, if_true] at h
+        cases hf : fitsI128 (a * b)
+        · rw [checkedI128_none hf] at h
+          simp at h
+        · rw [checkedI128_some hf] at h
+          simp at h
+          exact Or.inr (Or.inr (Or.inr ⟨h.symm, rfl⟩))
+
+/-- … so the result has exactly the value of the product: `r.coeff / 10^r.nfrac = (a / 10^p) · (b / 10^q)`, over the integers -/
+theorem mul_exact_value (prof : Profile) (tm : Mode) (x y r : Dec) (hp : x.nfrac ≤ 18) (hq : y.nfrac ≤ 18)
+    (hpq : x.nfrac + y.nfrac ≤ 18) (h : mul prof tm x y = .ok r) :
+    r.coeff * (10 : Int) ^ (x.nfrac + y.nfrac) = x.coeff * y.coeff * (10 : Int) ^ r.nfrac := by
+  rcases mul_exact_cases prof tm x y r hp hq hpq h with ⟨rfl, h0⟩ | ⟨rfl, h1⟩ | ⟨rfl, h1⟩ | ⟨rfl, -⟩
+  · rcases h0 with h0 | h0 <;> simp [Dec.ZERO, h0]
+  · rw [h1, Int.pow_add, Int.mul_assoc, Int.mul_comm ((10 : Int) ^ y.nfrac)]
+  · rw [h1, Int.pow_add, Int.mul_comm, Int.mul_assoc, Int.mul_comm ((10 : Int) ^ r.nfrac) r.coeff]
+    exact (Int.mul_assoc _ _ _).symm
+  · rfl
+
+example : mul Profile.dev .heven ⟨-15, 1⟩ ⟨25, 2⟩ = .ok ⟨-375, 3⟩ ∧ (-375 : Int) * 10 ^ (1 + 2) = -15 * 25 * 10 ^ 3 ∧
+    mul Profile.dev .heven ⟨-15, 1⟩ ⟨100, 2⟩ = .ok ⟨-15, 1⟩ ∧ (-15 : Int) * 10 ^ (1 + 2) = -15 * 100 * 10 ^ 1 := by decide
+
 end Fpdec.Props.C02
